@@ -1,5 +1,6 @@
 """C04 - Colang 2 event matching follows the documented partial-match rules (shape of the matcher)."""
 import ast
+import re
 
 from ..pycfg import CFG, walk_no_nested
 from ..source import AnalysisError, find_function, first_line, src, functions
@@ -22,6 +23,8 @@ def run(ctx):
     d_range(ctx, fn)
     e_primitives(ctx, fn)
     c_identity(ctx, t, fn)
+    a_list_scan(ctx, fn)
+    d_priority(ctx, t)
 
 
 def find_arg_matcher(t):
@@ -288,3 +291,56 @@ def _anc(node, stop):
     while p is not None and p is not stop:
         yield p
         p = getattr(p, "_parent", None)
+
+
+def a_list_scan(ctx, fn):
+    """List rule 'expected items found in order': the cursor over the RECEIVED list advances on
+    every iteration (a received element is used at most once), the cursor over the EXPECTED list
+    only after a successful comparison."""
+    args, ref = fn.args.args[0].arg, fn.args.args[1].arg
+    br = branches(fn)
+    if "list" not in br:
+        return
+    ifn, body = br["list"]
+    loops = [s for s in body if isinstance(s, ast.While)]
+    if not loops:
+        ctx.check("C04.a.list-scan", SM, fn.name, "list scan loop", False, "no scanning loop in the list branch", line=ifn.lineno)
+        return
+    lp = loops[0]
+    rec = [c for c in ast.walk(lp) if isinstance(c, ast.Call) and isinstance(c.func, ast.Name) and c.func.id == fn.name]
+    if not rec or not isinstance(rec[0].args[0], ast.Subscript) or not isinstance(rec[0].args[1], ast.Subscript):
+        ctx.check("C04.a.list-scan", SM, fn.name, "list scan cursors", False, "the element comparison does not index both lists", line=lp.lineno)
+        return
+    ri, ei = src(rec[0].args[0].slice), src(rec[0].args[1].slice)
+    inc_r_top = [s for s in lp.body if isinstance(s, ast.AugAssign) and src(s.target) == ri and isinstance(s.op, ast.Add) and src(s.value) == "1"]
+    inc_r_all = [s for s in ast.walk(lp) if isinstance(s, ast.AugAssign) and src(s.target) == ri]
+    ok_r = len(inc_r_top) == 1 and len(inc_r_all) == 1
+    ctx.check("C04.a.list-scan", SM, fn.name, "received cursor %s" % ri, ok_r,
+              "the cursor over the received list advances unconditionally, once per iteration (each received element can satisfy at most one expected item)" if ok_r else
+              "the cursor over the received list does not advance on every iteration: one received element can satisfy several consecutive expected items (e.g. pattern [1, 1] matches [1, 2])",
+              line=lp.lineno)
+    inc_e = [s for s in ast.walk(lp) if isinstance(s, ast.AugAssign) and src(s.target) == ei]
+    ok_e = len(inc_e) == 1 and not any(inc_e[0] is s for s in lp.body)
+    if ok_e:
+        par = getattr(inc_e[0], "_parent", None)
+        ok_e = isinstance(par, ast.If) and "> 0" in src(par.test)
+    ctx.check("C04.a.list-scan", SM, fn.name, "expected cursor %s" % ei, ok_e,
+              "the cursor over the expected list advances only after a successful comparison (items are found in order)", line=lp.lineno)
+    bound = re.sub(r"\s", "", src(lp.test))
+    ok_b = ("%s<len(%s)" % (ei, ref)) in bound and ("%s<len(%s)" % (ri, args)) in bound
+    ctx.check("C04.a.list-scan", SM, fn.name, "loop bound", ok_b, "the scan stops when either list is exhausted", line=lp.lineno)
+
+
+def d_priority(ctx, t):
+    """The flow priority only SCALES a match: a declared priority (range-checked to [0, 1]) must
+    not turn a matching event into a non-match."""
+    fn = find_function(t, "_compute_event_comparison_score")
+    muls = [s for s in ast.walk(fn) if isinstance(s, ast.AugAssign) and isinstance(s.op, ast.Mult) and isinstance(s.value, ast.Name) and s.value.id == "priority"]
+    ctx.floor("C04.d.priority", SM, "priority scaling of the match score", len(muls), 1)
+    for m in muls:
+        par = getattr(m, "_parent", None)
+        ok = isinstance(par, ast.If) and re.sub(r"\s", "", src(par.test)) in ("priority", "priority>0", "priority>0.0", "priorityisnotNoneandpriority>0", "priorityandpriority>0")
+        ctx.check("C04.d.priority", SM, fn.name, src(m), ok,
+                  "the score is multiplied by the priority only when the priority is non-zero (guard `%s`)" % (src(par.test) if isinstance(par, ast.If) else None) if ok else
+                  "the score is multiplied by the priority under `%s`: a flow with the allowed priority 0.0 gets score 0 for every event and its match never advances" % (src(par.test) if isinstance(par, ast.If) else "no guard"),
+                  line=m.lineno)
